@@ -480,7 +480,7 @@ def nontrivial(case, impl_line):
 
 def flags_from(facts):
     b = lambda k: '0' if facts.get(k) == 'false' else '1'
-    return [b('c17_guard_queues'), b('c17_guard_tbufs'), b('c17_recheck_per_logger'), b('c17_flag_after_erase_and_prune'),
+    return [b('c17_guard_queues'), b('c17_guard_tbufs'), b('c17_recheck_per_logger'), b('c17_flag_after_erase'),
             b('c17_prune_after_erase'), b('c17_get_checks_valid')]
 
 
@@ -488,13 +488,13 @@ WITNESS = [
     ('c17_guard_tbufs', 'the clean-up guard no longer looks at the transit buffers', 'cfg_no_tb', 'w_no_tb', 'C17_guard_tbuf_refuted'),
     ('c17_guard_queues', 'the clean-up guard no longer looks at every frontend queue', 'cfg_no_q', 'w_no_q', 'C17_guard_queue_refuted'),
     ('c17_recheck_per_logger', 'the guard is not evaluated again for each invalid logger (or is not the backend emptiness check)', 'cfg_no_recheck', 'w_no_recheck', 'C17_recheck_refuted'),
-    ('c17_flag_after_erase_and_prune', 'the removal flag is not stored after erase + cleanup_unused_sinks only', 'cfg_flag_early', 'w_flag_early', 'C17_flag_before_erase_refuted'),
+    ('c17_flag_after_erase', 'the removal flag is not stored after erase + cleanup_unused_sinks only', 'cfg_flag_early', 'w_flag_early', 'C17_flag_before_erase_refuted'),
     ('c17_prune_after_erase', 'cleanup_unused_sinks does not run after loggers were erased', 'cfg_no_prune', 'w_no_prune', 'C17_no_prune_refuted'),
     ('c17_get_checks_valid', 'get_logger does not test validity', 'cfg_get_any', '[FCreateSink 0 0; FCreate 0 0 [0]; FRemove 0; FGet 1 0]', 'C17_get_invalid_refuted'),
     ('c17_spin_exchange', 'Spinlock::lock exchange is not an acquire', '{| x_acq := false; u_rel := true |}', 'sp_trace', 'C17_spin_relaxed_exchange_refuted'),
     ('c17_spin_unlock_store', 'Spinlock::unlock is not a release store', '{| x_acq := true; u_rel := false |}', 'sp_trace', 'C17_spin_relaxed_unlock_refuted'),
 ]
-FACT_KEYS = ('c17_guard_queues', 'c17_guard_tbufs', 'c17_recheck_per_logger', 'c17_flag_after_erase_and_prune', 'c17_prune_after_erase',
+FACT_KEYS = ('c17_guard_queues', 'c17_guard_tbufs', 'c17_recheck_per_logger', 'c17_flag_after_erase', 'c17_prune_after_erase',
              'c17_get_checks_valid', 'c17_request_before_invalidate', 'c17_sink_table_weak', 'c17_logger_shares_sinks', 'c17_registry_owns_loggers',
              'c17_spin_spin_load', 'c17_spin_exchange', 'c17_spin_unlock_store', 'c17_valid_store', 'c17_valid_load', 'c17_inv_flag_set', 'c17_inv_flag_load')
 
